@@ -61,3 +61,27 @@ package functioncontracts
 //@ -- i-th edge, so a fact about the edge value holds of the phi (the tables being extended are those of that predecessor)
 //@ assume ssa-phi-semantics (soundFact (iface *ssa.Phi (local instr)) (local candNil))
 //@ loop 2 step propagated-table-is-a-private-copy (newinloop (local nTable))
+
+//@ -- C20 (first sentence: an inferred contract is true of EVERY execution): deriveContracts looks for a
+//@ -- counterexample among the returns, so every return instruction must be checked against at least one nilness
+//@ -- table - also a return in a block for which the dataflow saved no table (nothing learned on the way there; defect
+//@ -- F14: such returns were skipped and a function that returns nil under an opaque condition got a contract).
+//@ -- add returns a set that contains the table (body verified: either it was there, or it is appended)
+//@ func (nilnessTable).equals
+//@ nobody
+//@ func add
+//@ prop C20
+//@ modifies *
+//@ ensures result-is-not-empty (>= (len result0) 1)
+//@ loop 0 invariant scanning (and (<= -1 rangeindex) (< rangeindex (len s)))
+//@ func newNilnessTableSet
+//@ nobody
+//@ func (nilnessTable).nilnessOf
+//@ pure
+//@ nobody
+//@ func deriveContracts
+//@ prop C20
+//@ modifies *
+//@ assume one-result-function (forall ((k Int)) (=> (and (<= 0 k) (< k (len retInstrs))) (>= (len (. (idx retInstrs k) Results)) 1)))
+//@ loop 0 step every-return-is-checked-against-a-table (>= totalChoices (+ (athead totalChoices) 1))
+//@ loop 1 invariant tables-checked-so-far (and (<= -1 rangeindex) (< rangeindex (len tables)) (>= (len tables) 1) (>= totalChoices (+ totalChoices@0 (+ rangeindex 1))))
